@@ -197,6 +197,23 @@ def build(case, seed=0):
                 items += ['TER\n'] + [a.clone() for a in lys] + ([] if case.get('noter') else ['TER\n'])
             else:
                 items += ['TER\n']
+            if case.get('solo') and num in case['solo_in']:
+                # a chain of its own that holds nothing but one ion / one free amino acid (no atom that receives a hydrogen from the program)
+                nz = [a for a in lys if a.name == 'NZ'][0]
+                n = (nz.x ** 2 + nz.y ** 2 + nz.z ** 2) ** 0.5          # the tripeptide is centred on the origin: move outwards from it
+                if case['solo'] == 'GLU':
+                    lib = gen.library()
+                    res = lib.protein_residues('3SGB', 'E')
+                    from . import c01
+                    solo = gen.S(c01.add_oxt([x.clone() for x in res[lib.find('3SGB', 'E', 'GLU', 0)][1]]))
+                    ref, dist = [x for x in solo.atoms if x.name == 'CD'][0], 6000
+                else:
+                    solo = gen.kind_struct(case['solo'], 'C', 21)
+                    ref, dist = solo.atoms[0], 3000
+                for x in solo.atoms:
+                    x.chain, x.resnum, x.icode, x.alt = 'C', 21, ' ', ' '
+                solo.translate(tuple(int(round(c + c / n * dist)) - r for c, r in zip((nz.x, nz.y, nz.z), (ref.x, ref.y, ref.z))))
+                items += [a.clone() for a in solo.atoms] + ['TER\n']
             items += ['ENDMDL\n']
     s = gen.S(items)
     s.translate(gen.seed_offset(seed))
@@ -255,13 +272,13 @@ def check_completion(names, own, mol):
             if key in own_res[n]:
                 if not own_res[n][key][1] <= nm:
                     v.append(('completion/own-atom-lost', '%s residue %s lost %s' % (n, key, sorted(own_res[n][key][1] - nm))))
-                if own_res[n][key][0] not in rn:
+                if own_res[n][key][0].strip() not in {x.strip() for x in rn}:
                     v.append(('completion/type-changed', '%s residue %s' % (n, key)))
             if len(rn) == 1:
                 t = next(iter(rn))
                 want = set()
                 for m in names:
-                    if key in own_res[m] and own_res[m][key][0] == t:
+                    if key in own_res[m] and own_res[m][key][0].strip() == t.strip():
                         want |= own_res[m][key][1]
                 if not want <= nm:
                     v.append(('completion/atoms-not-topped-up', '%s residue %s (%s) lacks %s' % (n, key, t, sorted(want - nm))))
@@ -430,6 +447,12 @@ def layouts(tier):
             if max(lys_in) <= max(nums):
                 for vs in itertools.product(('ASP', 'ASPs'), repeat=len(nums)):
                     cases.append(dict(kind='model', layout=list(zip(nums, vs)), lys_in=list(lys_in)))
+    # a chain that exists in some models only and holds nothing but an ion or one free amino acid
+    for solo in ('CA', 'GLU'):
+        for solo_in in ((2,), (1,), (1, 2), (2, 3)):
+            for nums in ((1, 2), (1, 2, 3)):
+                if max(solo_in) <= max(nums):
+                    cases.append(dict(kind='model', layout=[(n, 'ASP') for n in nums], solo=solo, solo_in=list(solo_in)))
     # all hydrogens supplied and kept (--keep-protons); one side chain has two alternate positions: the second conformation must be
     # given the hydrogens too
     for shift in ((0, 0, 0), (120, -80, 100)):
